@@ -232,6 +232,32 @@ def index_workloads(bounds):
     return out
 
 
+MB = 1024 * 1024
+
+
+def bytes_workloads(rng, totals):
+    """ONE Update call of `total` bytes: 2-5 large values (each below the codec's 16 MB limit) with small ones before,
+    between and after them, keys rewritten within the call; a small call before and after it, close, reopen, one more"""
+    out = []
+    for t in totals:
+        n = rng.choice([2, 3, 3, 4, 5])
+        while t / n > 15 * MB:
+            n += 1
+        w = [1 + rng.random() for _ in range(n)]
+        parts = [int(t * x / sum(w)) for x in w]
+        keys = "abcde"
+        ents = [("a", None, None)]
+        call = [("b", None)]
+        for j, sz in enumerate(parts):
+            call.append((keys[(2 * j) % 5], sz))
+            if j % 2 == 0 or j == n - 1:
+                call.append((keys[(2 * j + 1) % 5], None))
+        ents += [(k, sz, None) for (k, sz) in call]
+        calls = "O,U1,U%d,U1,C,O,U1" % len(call)
+        out.append(("bytes-%dk" % (t // 1024), calls, mk_log(ents, consumed(calls))))
+    return out
+
+
 def rich_log(rng, n):
     """a log mixing the dimensions: 3-8 keys, a few large values, index gaps up to a boundary"""
     keys = ["a", "b", "c", "d", "e", "f", "g", "h"][:rng.choice([3, 3, 5, 8])]
